@@ -161,7 +161,7 @@ def _eval(kind, data):
                 counts[c] += 1
                 in_pick[0] = True
                 if sum(counts) > 5000:
-                    raise HarnessError("runaway ensemble")
+                    raise NotOnePickPerMolecule("the ensemble does not stop (that is C13's subject); no composition verdict")
         except StopIteration:
             pass
         except RuntimeError as e:
